@@ -46,6 +46,9 @@ pub enum AttemptOutcome {
     RstAfterReceive,
     /// The node answers with a RESULT whose body is cut short (parse error).
     CorruptBody,
+    /// The node received the request; then local writes on the connection start to
+    /// fail (the next keepalive hits it) while nothing is ever read.
+    WriteFailAfterReceive,
 }
 
 impl AttemptOutcome {
@@ -69,7 +72,7 @@ fn draw_outcome(success_weight: u64, rst: bool) -> AttemptOutcome {
     use AttemptOutcome::*;
     match tape::weighted(
         "c06:outcome",
-        &[success_weight, 4, 4, 5, 2, 2, 2, 3, 1, 1, 1, 1, 1, 1, 1, 1, 1, 1, if rst { 4 } else { 0 }, 1],
+        &[success_weight, 4, 4, 5, 2, 2, 2, 3, 1, 1, 1, 1, 1, 1, 1, 1, 1, 1, if rst { 4 } else { 0 }, 1, if rst { 3 } else { 0 }],
     ) {
         0 => Success,
         1 => Unavailable {
@@ -104,7 +107,8 @@ fn draw_outcome(success_weight: u64, rst: bool) -> AttemptOutcome {
         16 => RateLimit,
         17 => UnknownCode,
         18 => RstAfterReceive,
-        _ => CorruptBody,
+        19 => CorruptBody,
+        _ => WriteFailAfterReceive,
     }
 }
 
@@ -153,7 +157,7 @@ fn error_reply(o: &AttemptOutcome, cl: u16, delay: u64) -> Reply {
             61440
         }
         UnknownCode => 0x6666,
-        Success | RstAfterReceive | CorruptBody => unreachable!(),
+        Success | RstAfterReceive | CorruptBody | WriteFailAfterReceive => unreachable!(),
     };
     Reply::Error {
         code,
@@ -195,12 +199,22 @@ impl Script for C06Script {
         let Some(m) = rq.marker else {
             return Reply::Default;
         };
-        // Half of the requests are "sticky": every attempt gets the outcome of the
-        // first one, so that one-shot retry rules are exercised past their budget.
-        let sticky = m / 16 % 2 == 1;
-        let previous = self.frames.get(&m).and_then(|f| f.first()).map(|f| f.outcome.clone());
-        let outcome = match (sticky, previous) {
-            (true, Some(o)) if o != AttemptOutcome::Success => o,
+        // A quarter of the requests are "sticky" (every attempt gets the outcome of
+        // the first one) and a quarter follow a two-outcome "pattern" (attempts
+        // alternate between the first two outcomes), so that one-shot retry rules
+        // are exercised past their budget, also across target changes.
+        let mode = m / 16 % 4;
+        let seen: Vec<AttemptOutcome> = self
+            .frames
+            .get(&m)
+            .map(|f| f.iter().map(|x| x.outcome.clone()).collect())
+            .unwrap_or_default();
+        let outcome = match mode {
+            1 if !seen.is_empty() && seen[0] != AttemptOutcome::Success => seen[0].clone(),
+            2 if seen.len() >= 2 && seen[..2].iter().all(|o| *o != AttemptOutcome::Success) => {
+                seen[seen.len() % 2].clone()
+            }
+            2 if seen.len() < 2 => draw_outcome(1, self.rst),
             _ => draw_outcome(self.success_weight, self.rst),
         };
         self.frames.entry(m).or_default().push(FrameSeen {
@@ -212,6 +226,10 @@ impl Script for C06Script {
         match outcome {
             AttemptOutcome::Success => Reply::DefaultAfter(delay),
             AttemptOutcome::RstAfterReceive => Reply::Close { rst: true, delay },
+            AttemptOutcome::WriteFailAfterReceive => {
+                w.conns[rq.conn].fail_writes = true;
+                Reply::NoReply
+            }
             AttemptOutcome::CorruptBody => {
                 w.fault(Fault::Corrupt);
                 // RESULT/Rows announcing one column but ending right there.
@@ -357,6 +375,8 @@ async fn main(plan: Plan) -> Outcome {
         contact_nodes: vec![0],
         pool: PoolSize::PerHost(NonZeroUsize::new(tape::range("c06:pool", 1, 2) as usize).unwrap()),
         retry: Some(Arc::new(FallthroughRetryPolicy)),
+        keepalive_interval: Some(Duration::from_secs(1)),
+        keepalive_timeout: Some(Duration::from_secs(2)),
         ..SessionCfg::default()
     };
     let session = match client::build_session(&cfg).await {
@@ -517,6 +537,17 @@ async fn main(plan: Plan) -> Outcome {
         };
         if frames.len() > plan.nodes + bonus {
             out.violation("c06.too_many_attempts", ctx.clone());
+        }
+        // The policy's fixed number of same-node retries.
+        let same_target = decisions
+            .iter()
+            .filter(|d| matches!(d.decision, RetryDecision::RetrySameTarget(_)))
+            .count();
+        if same_target > bonus {
+            out.violation(
+                "c06.too_many_same_node_retries",
+                format!("{same_target} same-node retries, the policy has a fixed budget of {bonus}: {ctx}"),
+            );
         }
         if s.policy == Policy::Fallthrough && frames.len() > 1 {
             out.violation("c06.fallthrough_retried", ctx.clone());
